@@ -44,6 +44,9 @@ type GraphNode struct {
 	SubjectAndKey           *x509.SubjectAndKey
 	childrenBySubjectAndKey map[subjectAndKeyFingerprint]*GraphEdgeSet
 	parentsBySubjectAndKey  map[subjectAndKeyFingerprint]*GraphEdgeSet
+	// rootEdges holds the root certificates issued to this SubjectAndKey. A
+	// root ends a chain whether or not its own issuer is known to the graph.
+	rootEdges *GraphEdgeSet
 }
 
 // A GraphEdge is a certificate that joins two SubjectAndKeys.
@@ -122,6 +125,7 @@ func (g *Graph) AddCert(c *x509.Certificate) {
 		node.SubjectAndKey = sk
 		node.childrenBySubjectAndKey = make(map[subjectAndKeyFingerprint]*GraphEdgeSet)
 		node.parentsBySubjectAndKey = make(map[subjectAndKeyFingerprint]*GraphEdgeSet)
+		node.rootEdges = NewGraphEdgeSet()
 		g.nodes = append(g.nodes, node)
 		g.nodesBySubjectAndKey[skfp] = node
 
@@ -242,6 +246,9 @@ func (g *Graph) AddRoot(c *x509.Certificate) {
 	g.AddCert(c)
 	edge := g.edges.FindEdge(c.FingerprintSHA256)
 	edge.root = true
+	if !edge.child.rootEdges.ContainsEdge(edge) {
+		edge.child.rootEdges.addOrPanic(edge)
+	}
 }
 
 // IsRoot returns true if c is a root in the graph.
